@@ -599,7 +599,9 @@ class NodeMechanicActor(actor.RallyActor):
             self.logger.exception("Cannot process message [%s]", msg)
             # avoid "can't pickle traceback objects"
             _, ex_value, _ = sys.exc_info()
-            self.send(getattr(msg, "reply_to", sender), actor.BenchmarkFailure(ex_value, traceback.format_exc()))
+            # the exception might not be deserializable on the receiver (e.g. exceptions of third-party libraries) and the message
+            # would get lost. Hence, we convert it here to a plain string.
+            self.send(getattr(msg, "reply_to", sender), actor.BenchmarkFailure(str(ex_value), traceback.format_exc()))
 
     def receiveMsg_PoisonMessage(self, msg, sender):
         if sender != self.myAddress:
@@ -629,7 +631,8 @@ class NodeMechanicActor(actor.RallyActor):
                     self.mechanic = None
         except BaseException as e:
             self.logger.exception("Cannot process message [%s]", msg)
-            self.send(getattr(msg, "reply_to", sender), actor.BenchmarkFailure("Error on host %s" % str(self.host), e))
+            # see above: the exception might not be deserializable on the receiver
+            self.send(getattr(msg, "reply_to", sender), actor.BenchmarkFailure("Error on host %s" % str(self.host), str(e)))
 
 
 #####################################################
